@@ -26,6 +26,15 @@ def a(rule, level="exploration", quick=60, thorough=1200, tsan=None, assumptions
     return d
 
 
+WORLD_C_COMPONENTS = {
+    "real": ["lib/Basic/LaneBasedExecutionQueue.cpp", "lib/Basic/SerialQueue.cpp", "lib/Basic/Subprocess.cpp",
+             "include/llbuild/Basic/POSIXEnvironment.h", "lib/Basic/PlatformUtility.cpp", "libstdc++ (static)"],
+    "simulated": ["thread scheduling (detsched)", "clock (kill timeout, sleeps)", "child processes, pipes, poll/read/wait4/kill, "
+                  "posix_spawn and its file actions (simproc)", "RLIMIT_NOFILE"],
+    "stub": ["children are scripted actors (write/sleep/close/release/ignore SIGINT/exit/raise)", "queue client = generated job mix"],
+    "not_run": ["lib/Core", "lib/BuildSystem", "real fork/exec"],
+}
+
 PROPS = {
     "C01": a("seeded generation of rule programs (3-14 keys; static/dynamic/discovered/order-only/single-use edges) x histories of "
              "{set leaf, build key, restart, change signature, reprogram rule, invalidate}; every build result and every value handed "
@@ -51,4 +60,15 @@ PROPS = {
     "C07": a("programs with back edges (static, dynamic, order-only) and reprogramming that leaves stale recorded edges; every "
              "cycle report validated edge by edge; reference says whether a clean evaluation is cyclic. Non-trivial: a cycle was "
              "reported or required, or an incremental build skipped work."),
+    "C16": {"level": "exploration",
+            "rule": "seeded job mixes (1-30 jobs: durations, priorities, jobs adding jobs, 0-8 process launches) x queue kind/lanes/"
+                    "scheduler algorithm/open-file limit x scripted children (0-200 KiB output in random chunking, exit 0-255, "
+                    "self-signal, SIGINT-ignoring, early close, lane release, malformed control messages) x faults (spawn ENOENT/EAGAIN/"
+                    "ENOMEM, pipe EMFILE, EINTR on poll/wait4, short reads) x cancellation at a seeded point, under seeded schedules. "
+                    "Non-trivial: at least one child was spawned and more than one job ran.",
+            "components": WORLD_C_COMPONENTS,
+            "assumptions": ["preemption at synchronisation operations, simulated syscalls and harness yield points only",
+                            "a simulated child dies at its next operation boundary after a fatal signal",
+                            "jobs are not added concurrently with the queue's destruction (client misuse)"],
+            "budget": {"quick": 60, "thorough": 1200}, "tsan": {"quick": 20, "thorough": 300}},
 }
